@@ -64,6 +64,8 @@ let tables () =
   Stdlib.List.iter (fun b -> Printf.printf "bad_wrow %s\n" (os b)) (bad_wrows structs free_sigs write_table);
   Stdlib.List.iter (fun (f, h) -> Printf.printf "bad_nrow %s %s\n" (os f) (Stdlib.String.concat "_" (Stdlib.String.split_on_char ' ' (os h))))
     (bad_nrows ctx_writers);
+  Stdlib.List.iter (fun (f, l) -> Printf.printf "bad_rrow %s %s\n" (os f) (Stdlib.String.concat "," (Stdlib.List.map os l)))
+    (bad_rrows structs reinit_rows);
   Stdlib.List.iter (fun ((p, l), n) -> Printf.printf "shadowed %s %s %s\n" (os p) (os l) (os n))
     (shadowed delete_table not_deletable goto_table);
   let withkids = positions_with_children goto_table in
